@@ -370,7 +370,9 @@ return t
 
 fn underscore_programs() -> Vec<String> {
     let mut v = Vec::new();
-    for decl in ["local unused = t.k", "local u1, u2 = t.k, t.a", "local u = t.k, get1()", "local u = -t", "local u = x + 1", "local u = get1()", "local u, w = get1(), t.k", "local _ = t.k", "local u = (t.k)"] {
+    for decl in ["local unused = t.k", "local u1, u2 = t.k, t.a", "local u = t.k, get1()", "local u = -t", "local u = x + 1", "local u = get1()", "local u, w = get1(), t.k", "local _ = t.k", "local u = (t.k)",
+        // a LATER discarded value mentions `_` (fix 43be447: the earlier value gets its own block)
+        "local u1, u2 = t.k, _ + 1", "local u1, u2 = t.k, get1(_)", "local u1, u2, u3 = t.k, t.a, t[_ or 'k']", "local u1, u2 = t.a, t[_]", "local u1, u2, u3 = t.k, _ + 1, t.a"] {
         v.push(format!("{}_ = 5
 {}
 return _
